@@ -146,3 +146,17 @@ def run(ctx):
     rm = dr.calls(r'^std::fs::remove_file$')
     chk = dr.calls(r'read_authority_lock_record$|^std::fs::read')
     ctx.ob('C18.3', dr, 'release-checks-ownership', bool(chk) or not rm, 'release removes lock.json %s' % ('after checking it is still its own' if chk else 'UNCONDITIONALLY: if the lock was (wrongly) taken over, the new authority\'s lock is deleted'), line=rm[0].line if rm else dr.line)
+
+    # ---------------------------------------------------------------- C18.4
+    ctx.rule('C18.4', 'held to the end: in serve() the AuthorityLockGuard is still live wherever the server task is awaited, timed out or aborted — the lock and endpoint record are released only after the old authority stopped serving (in-flight streams included), never before the graceful drain.')
+    sv = P.body('ripd::server::serve')
+    ctx.touch(sv)
+    joins = [s_ for s_ in sv.sites() if re.search(r'JoinHandle', s_.full or s_.callee) and re.search(r'::poll$|::abort$|timeout::timeout$|::is_finished$', s_.callee + ' ' + (s_.full or ''))
+             or re.search(r'JoinHandle', s_.full or '') and re.search(r'::poll$', s_.declared or '')]
+    joins = list({s_.bb: s_ for s_ in joins}.values())
+    ctx.floor('C18.4', 'await / timeout / abort sites of the server task in serve()', len(joins), 2)
+    for s_ in joins:
+        held = sv.held_at(s_.bb, r'ripd::local_authority::AuthorityLockGuard$')
+        ctx.ob('C18.4', sv, 'lock-held-while-serving:' + s_.name, bool(held),
+               'the server task is %s %s' % ({'abort': 'aborted', 'poll': 'awaited', 'timeout': 'given its drain timeout'}.get(s_.name, s_.name),
+                                            'while the authority lock is still held' if held else 'AFTER the authority lock was released: a second authority can take the store while this one still serves in-flight streams'), line=s_.line)
